@@ -1,9 +1,13 @@
 package main
 
-// E8 — serialiser token-source dataflow: C02, the serialiser half of C01, C16.
+// E8 — serialiser token-source dataflow on the SX path normal form: C02, the serialiser half of C01, C16.
+// The text a container serialiser emits is folded symbolically for 0..3 elements: builder writes, Sprintf with a constant
+// format, concatenation and strings.Join are reduced to a token sequence over {constant, CHILD, KEY}; scalar serialisers are
+// classified by the encoder they apply to their payload; float text is tracked in a small abstract domain.
 
 import (
 	"go/ast"
+	"go/constant"
 	"go/token"
 	"go/types"
 	"sort"
@@ -12,7 +16,6 @@ import (
 
 // ---------------------------------------------------------------- trusted language table (DESIGN.md §7)
 
-// stringEncoderClass classifies a function (by resolved full name) that turns a string into a quoted literal.
 func stringEncoderClass(full string) string {
 	switch full {
 	case "strconv.Quote", "strconv.QuoteToASCII", "strconv.QuoteToGraphic", "strconv.AppendQuote":
@@ -23,71 +26,49 @@ func stringEncoderClass(full string) string {
 	return ""
 }
 
-// ---------------------------------------------------------------- helpers
-
-// payloadOf: expression denotes the receiver's payload: recv.val, recv.getVal().(T), or a single-assignment local of those.
-func (c *Ctx) isPayload(fd *ast.FuncDecl, e ast.Expr, alias map[types.Object]ast.Expr) bool {
-	for k := 0; k < 4; k++ {
-		e = unparen(e)
-		if id, ok := e.(*ast.Ident); ok {
-			if d, ok := alias[c.obj(id)]; ok {
-				e = d
-				continue
-			}
+// serSX returns an SX instance in which string encoder helpers (func(string) string of this package) stay opaque.
+func (c *Ctx) serSX() *SX {
+	x := c.NewSX()
+	sc := c.Types.Scope()
+	for _, n := range sc.Names() {
+		f, ok := sc.Lookup(n).(*types.Func)
+		if !ok {
+			continue
 		}
-		break
+		sig := f.Type().(*types.Signature)
+		if sig.Recv() == nil && sig.Params().Len() == 1 && sig.Results().Len() == 1 && isStringType(sig.Params().At(0).Type()) && isStringType(sig.Results().At(0).Type()) {
+			x.NoInline[n] = true
+		}
 	}
-	recv := c.recvObj(fd)
-	switch x := e.(type) {
-	case *ast.SelectorExpr:
-		if c.obj(x.X) == recv {
-			if s := c.Info.Selections[x]; s != nil && s.Kind() == types.FieldVal {
-				return true
-			}
-		}
-	case *ast.TypeAssertExpr:
-		if call, ok := unparen(x.X).(*ast.CallExpr); ok && len(call.Args) == 0 {
-			if sel, ok := unparen(call.Fun).(*ast.SelectorExpr); ok && c.obj(sel.X) == recv && c.isValueAccessor(c.callee(call)) {
-				return true
-			}
+	return x
+}
+
+func isStringType(t types.Type) bool {
+	b, ok := t.Underlying().(*types.Basic)
+	return ok && b.Info()&types.IsString != 0
+}
+
+// isPayloadTerm: t denotes the receiver's payload: recv.field, recv.getVal().(T) (either assertion form).
+func (v *sxView) isPayloadTerm(t Term) bool {
+	switch x := t.(type) {
+	case TSel:
+		return v.isRecv(x.X)
+	case TAssert:
+		e, ok := v.valueOf(x.X)
+		return ok && v.isRecv(e)
+	case TProj:
+		if a, ok := x.X.(TAssert); ok && x.K == 0 {
+			e, ok := v.valueOf(a.X)
+			return ok && v.isRecv(e)
 		}
 	}
 	return false
 }
 
-func singleAssignAliases(c *Ctx, body *ast.BlockStmt) map[types.Object]ast.Expr {
-	counts := map[types.Object]int{}
-	def := map[types.Object]ast.Expr{}
-	ast.Inspect(body, func(n ast.Node) bool {
-		switch x := n.(type) {
-		case *ast.AssignStmt:
-			for i, l := range x.Lhs {
-				if o := c.obj(l); o != nil {
-					counts[o]++
-					if len(x.Lhs) == len(x.Rhs) {
-						def[o] = x.Rhs[i]
-					}
-				}
-			}
-		case *ast.IncDecStmt:
-			if o := c.obj(x.X); o != nil {
-				counts[o] += 2
-			}
-		}
-		return true
-	})
-	out := map[types.Object]ast.Expr{}
-	for o, n := range counts {
-		if n == 1 && def[o] != nil {
-			out[o] = def[o]
-		}
-	}
-	return out
-}
-
-// stringHelperClass analyses a repo-local helper func(string) string and classifies it as a string encoder.
-// Accepted shapes (DESIGN.md E8): `b, _ := json.Marshal(x); return string(b)` and
-// `var buf bytes.Buffer; enc := json.NewEncoder(&buf); [enc.SetEscapeHTML(false);] enc.Encode(x); return strings.TrimSuffix(buf.String(), "\n")`.
+// stringHelperClass analyses a helper func(string) string as a string encoder (SX): accepted shapes
+//   b, _ := json.Marshal(x); return string(b)
+//   enc := json.NewEncoder(&buf) [enc.SetEscapeHTML(false)] enc.Encode(x); return strings.TrimSuffix(buf.String(), "\n")
+// with buf any local io.Writer with a String() method (bytes.Buffer, strings.Builder).
 func (c *Ctx) stringHelperClass(fn *types.Func) (class, why string) {
 	if cls := stringEncoderClass(fn.FullName()); cls != "" {
 		return cls, ""
@@ -100,156 +81,232 @@ func (c *Ctx) stringHelperClass(fn *types.Func) (class, why string) {
 	if par == nil {
 		return "", "helper does not take exactly one parameter"
 	}
-	body := fd.Body.List
-	// shape A
-	if len(body) == 2 {
-		if as, ok := body[0].(*ast.AssignStmt); ok && len(as.Lhs) == 2 && len(as.Rhs) == 1 {
-			if call, ok := unparen(as.Rhs[0]).(*ast.CallExpr); ok && c.calleeFull(call) == "encoding/json.Marshal" && len(call.Args) == 1 && c.obj(call.Args[0]) == par {
-				if r, ok := body[1].(*ast.ReturnStmt); ok && len(r.Results) == 1 {
-					if conv, ok := unparen(r.Results[0]).(*ast.CallExpr); ok && len(conv.Args) == 1 && c.obj(conv.Args[0]) == c.obj(as.Lhs[0]) {
-						if tv, ok := c.Info.Types[conv.Fun]; ok && tv.IsType() {
-							return "json", ""
-						}
-					}
-				}
+	x := c.NewSX()
+	paths := x.Run(fd)
+	if len(paths) != 1 || paths[0].Why != "" || paths[0].End != "return" || len(paths[0].Vals) != 1 || len(paths[0].Conds()) != 0 {
+		return "", "helper is not a straight-line encoder (a data-dependent shortcut emits text the encoder never saw)"
+	}
+	p := paths[0]
+	ret := p.Vals[0]
+	// shape A: string(json.Marshal(x)#0)
+	if cv, ok := ret.(TConv); ok && isStringType(cv.To) {
+		if pr, ok := cv.X.(TProj); ok && pr.K == 0 {
+			if call, ok := pr.X.(TCall); ok && call.Fun != nil && call.Fun.FullName() == "encoding/json.Marshal" && len(call.Args) == 1 && isParamTerm(call.Args[0], par) {
+				return "json", ""
 			}
+		}
+	}
+	// a Go-syntax quoter applied directly
+	if call, ok := ret.(TCall); ok && call.Fun != nil {
+		if cls := stringEncoderClass(call.Fun.FullName()); cls == "go-syntax" && len(call.Args) == 1 && isParamTerm(call.Args[0], par) {
+			return "go-syntax", ""
 		}
 	}
 	// shape B
-	var buf, enc types.Object
-	encoded, trimmed := false, false
-	for _, s := range body {
-		switch x := s.(type) {
-		case *ast.DeclStmt:
-			gd := x.Decl.(*ast.GenDecl)
-			if len(gd.Specs) != 1 {
-				return "", "unexpected declaration in the helper"
+	var encT, bufT Term
+	encoded := false
+	for _, s := range p.Effects() {
+		if s.Kind != "call" || s.Call == nil || s.Call.Fun == nil {
+			if s.Kind == "store" {
+				continue // zero-initialisation of the local buffer
 			}
-			vs, ok := gd.Specs[0].(*ast.ValueSpec)
-			if !ok || len(vs.Names) != 1 || len(vs.Values) != 0 || buf != nil {
-				return "", "unexpected declaration in the helper"
+			return "", "unexpected effect in the helper"
+		}
+		switch s.Call.Fun.FullName() {
+		case "encoding/json.NewEncoder":
+			if encT != nil || len(s.Call.Args) != 1 {
+				return "", "more than one encoder"
 			}
-			if t := c.typeOf(vs.Type); t == nil || t.String() != "bytes.Buffer" {
-				return "", "helper declares something other than a local bytes.Buffer"
-			}
-			buf = c.Info.Defs[vs.Names[0]]
-		case *ast.AssignStmt:
-			call, ok := unparen(x.Rhs[0]).(*ast.CallExpr)
-			if !ok || len(x.Lhs) != 1 || c.calleeFull(call) != "encoding/json.NewEncoder" || len(call.Args) != 1 || enc != nil {
-				return "", "unexpected assignment in the helper"
-			}
-			u, ok := unparen(call.Args[0]).(*ast.UnaryExpr)
-			if !ok || u.Op != token.AND || c.obj(u.X) != buf || buf == nil {
+			encT, bufT = *s.Call, s.Call.Args[0]
+			if _, ok := bufT.(TAddr); !ok {
 				return "", "the encoder does not write into the helper's own local buffer"
 			}
-			enc = c.obj(x.Lhs[0])
-		case *ast.ExprStmt:
-			call, ok := x.X.(*ast.CallExpr)
-			if !ok {
-				return "", "unexpected statement in the helper"
+		case "(*encoding/json.Encoder).SetEscapeHTML":
+		case "(*encoding/json.Encoder).Encode":
+			if encoded || len(s.Call.Args) != 1 || !isParamTerm(s.Call.Args[0], par) || encT == nil || !sameTerm(s.Call.Recv, encT) {
+				return "", "Encode is not applied exactly once to the helper's parameter"
 			}
-			sel, ok := unparen(call.Fun).(*ast.SelectorExpr)
-			if !ok || c.obj(sel.X) != enc || enc == nil {
-				return "", "unexpected call in the helper"
-			}
-			switch c.calleeFull(call) {
-			case "(*encoding/json.Encoder).SetEscapeHTML":
-			case "(*encoding/json.Encoder).Encode":
-				if len(call.Args) != 1 || c.obj(call.Args[0]) != par || encoded {
-					return "", "Encode is not applied exactly once to the helper's parameter"
-				}
-				encoded = true
-			default:
-				return "", "unexpected encoder method " + c.calleeFull(call)
-			}
-		case *ast.ReturnStmt:
-			if len(x.Results) != 1 || !encoded {
-				return "", "helper returns before encoding"
-			}
-			call, ok := unparen(x.Results[0]).(*ast.CallExpr)
-			if !ok || c.calleeFull(call) != "strings.TrimSuffix" || len(call.Args) != 2 {
-				return "", "the trailing newline appended by Encoder.Encode is not trimmed with strings.TrimSuffix(…, \"\\n\")"
-			}
-			if sfx, ok := c.constString(call.Args[1]); !ok || sfx != "\n" {
-				return "", "TrimSuffix does not remove exactly the one trailing newline"
-			}
-			bs, ok := unparen(call.Args[0]).(*ast.CallExpr)
-			if !ok || len(bs.Args) != 0 || c.calleeFull(bs) != "(*bytes.Buffer).String" {
-				return "", "helper does not return the buffer's content"
-			}
-			if sel, ok := unparen(bs.Fun).(*ast.SelectorExpr); !ok || c.obj(sel.X) != buf {
-				return "", "helper returns another buffer's content"
-			}
-			trimmed = true
+			encoded = true
+		case "(*strings.Builder).Grow", "(*bytes.Buffer).Grow":
 		default:
-			return "", "statement outside the accepted encoder-helper shapes"
+			return "", "unexpected call " + s.Call.Fun.FullName()
 		}
 	}
-	if encoded && trimmed {
-		return "json", ""
+	if !encoded {
+		return "", "helper matches no accepted encoder shape"
 	}
-	return "", "helper matches no accepted encoder shape"
+	trim, ok := ret.(TCall)
+	if !ok || trim.Fun == nil || len(trim.Args) != 2 {
+		return "", "the trailing newline appended by Encoder.Encode is not trimmed"
+	}
+	switch trim.Fun.FullName() {
+	case "strings.TrimSuffix", "strings.TrimRight":
+	default:
+		return "", "the trailing newline appended by Encoder.Encode is not trimmed with strings.TrimSuffix(…, \"\\n\")"
+	}
+	if sfx, ok := isConstStringTerm(trim.Args[1]); !ok || sfx != "\n" {
+		return "", "the trim does not remove exactly the trailing newline"
+	}
+	bs, ok := trim.Args[0].(TCall)
+	if !ok || bs.Fun == nil || bs.Fun.Name() != "String" || bs.Recv == nil || !sameBuffer(bs.Recv, bufT) {
+		return "", "helper does not return the content of the buffer the encoder wrote"
+	}
+	return "json", ""
 }
 
-// ---------------------------------------------------------------- token sources
+// ---------------------------------------------------------------- token emission
 
 type sTok struct {
-	Kind string // CONST, CHILD, KEY, BAD
+	Kind string // C (constant), CHILD, KEY, BAD
 	Text string
-	Why  string
-	Pos  token.Pos
+	Enc  *types.Func
 }
 
-// tokensOf decomposes a string expression into ordered token sources.
-func (c *Ctx) tokensOf(fd *ast.FuncDecl, e ast.Expr, key, val types.Object) []sTok {
-	e = unparen(e)
-	if s, ok := c.constString(e); ok {
-		return []sTok{{Kind: "CONST", Text: s, Pos: e.Pos()}}
-	}
-	if tv, ok := c.Info.Types[e]; ok && tv.Value != nil { // rune constant passed to WriteRune
-		if r, ok := c.constInt(e); ok {
-			return []sTok{{Kind: "CONST", Text: string(rune(r)), Pos: e.Pos()}}
+func tokStr(ts []sTok) string {
+	var p []string
+	for _, t := range ts {
+		switch t.Kind {
+		case "C":
+			p = append(p, "'"+t.Text+"'")
+		case "BAD":
+			p = append(p, "BAD("+t.Text+")")
+		default:
+			p = append(p, t.Kind)
 		}
 	}
-	switch x := e.(type) {
-	case *ast.BinaryExpr:
+	return strings.Join(p, " ")
+}
+
+func mergeToks(ts []sTok) []sTok {
+	var out []sTok
+	for _, t := range ts {
+		if t.Kind == "C" && t.Text == "" {
+			continue
+		}
+		if t.Kind == "C" && len(out) > 0 && out[len(out)-1].Kind == "C" {
+			out[len(out)-1].Text += t.Text
+			continue
+		}
+		out = append(out, t)
+	}
+	return out
+}
+
+type emitter struct {
+	c       *Ctx
+	v       *sxView
+	fd      *ast.FuncDecl
+	n       int64
+	ints    map[string]int64    // loop-carried ints by TLoop key / range key
+	bools   map[string]bool     // loop-carried boolean flags
+	bufs    map[string][]sTok   // builder content by canonical buffer key
+	lists   map[string][][]sTok // accumulated string slices by variable key
+	strs    map[string][]sTok   // accumulated strings by variable key
+	keyVar  types.Object
+	valVar  types.Object
+	serName string
+	why     string
+}
+
+func bufKey(t Term) string {
+	if d, ok := t.(TDeref); ok {
+		t = d.X
+	}
+	if a, ok := t.(TAddr); ok {
+		t = a.X
+	}
+	return key(t)
+}
+
+func (e *emitter) bad(w string) []sTok { return []sTok{{Kind: "BAD", Text: w}} }
+
+func (e *emitter) tokens(t Term) []sTok {
+	c := e.c
+	if s, ok := isConstStringTerm(t); ok {
+		return []sTok{{Kind: "C", Text: s}}
+	}
+	if k, ok := t.(TConst); ok && k.Val.Kind() == constant.Int {
+		v, _ := constant.Int64Val(k.Val)
+		return []sTok{{Kind: "C", Text: string(rune(v))}}
+	}
+	switch x := t.(type) {
+	case TConv:
+		if isStringType(x.To) || isIntType(x.To) {
+			return e.tokens(x.X)
+		}
+	case TBin:
 		if x.Op == token.ADD {
-			return append(c.tokensOf(fd, x.X, key, val), c.tokensOf(fd, x.Y, key, val)...)
+			return append(e.tokens(x.X), e.tokens(x.Y)...)
 		}
-	case *ast.CallExpr:
-		full := c.calleeFull(x)
-		if full == "fmt.Sprintf" {
-			return c.sprintfTokens(fd, x.Args, key, val, x.Pos())
+	case TLoop:
+		if ts, ok := e.strs[key(TVar{x.Obj})]; ok {
+			return append([]sTok(nil), ts...)
 		}
-		// child serialisation: <range value>.serialize()
-		if sel, ok := unparen(x.Fun).(*ast.SelectorExpr); ok && len(x.Args) == 0 && val != nil && c.obj(sel.X) == val {
-			if f := c.callee(x); f != nil && f.Name() == c.FuncObj(fd).Name() {
-				return []sTok{{Kind: "CHILD", Pos: x.Pos()}}
+	case TCall:
+		if x.Fun == nil {
+			break
+		}
+		full := x.Fun.FullName()
+		switch {
+		case full == "fmt.Sprintf":
+			return e.sprintf(unpack(x.Args))
+		case x.Fun.Name() == "String" && x.Recv != nil && len(x.Args) == 0:
+			if ts, ok := e.bufs[bufKey(x.Recv)]; ok {
+				return append([]sTok(nil), ts...)
 			}
-		}
-		// key encoder applied to the range key
-		if f := c.callee(x); f != nil && len(x.Args) == 1 && key != nil && c.obj(x.Args[0]) == key {
-			cls, why := c.stringHelperClass(f)
+		case full == "strings.Join" && len(x.Args) == 2:
+			sep, ok := isConstStringTerm(x.Args[1])
+			if !ok {
+				return e.bad("strings.Join with a non-constant separator")
+			}
+			var lk string
+			switch l := x.Args[0].(type) {
+			case TLoop:
+				lk = key(TVar{l.Obj})
+			case TVar:
+				lk = key(l)
+			}
+			items, ok := e.lists[lk]
+			if !ok {
+				if mk, isMk := x.Args[0].(TBuiltin); isMk && mk.Name == "make" {
+					items, ok = nil, true
+				}
+			}
+			if !ok {
+				return e.bad("strings.Join over something that is not the accumulated item slice")
+			}
+			var out []sTok
+			for i, it := range items {
+				if i > 0 {
+					out = append(out, sTok{Kind: "C", Text: sep})
+				}
+				out = append(out, it...)
+			}
+			return out
+		case x.Recv != nil && len(x.Args) == 0 && x.Fun.Name() == e.serName && e.valVar != nil && isParamTerm(x.Recv, e.valVar):
+			return []sTok{{Kind: "CHILD"}}
+		case x.Recv == nil && len(x.Args) == 1 && e.keyVar != nil && isParamTerm(x.Args[0], e.keyVar):
+			cls, why := c.stringHelperClass(x.Fun)
 			switch cls {
 			case "json":
-				return []sTok{{Kind: "KEY", Text: f.Name(), Pos: x.Pos()}}
+				return []sTok{{Kind: "KEY", Enc: x.Fun}}
 			case "go-syntax":
-				return []sTok{{Kind: "BAD", Why: f.FullName() + " emits Go literal syntax (\\x01, \\a, \\v, \\U…), which is not JSON", Pos: x.Pos()}}
+				return e.bad(x.Fun.FullName() + " emits Go literal syntax (\\x01, \\a, \\v, \\U…), which is not JSON")
 			default:
-				return []sTok{{Kind: "BAD", Why: "key encoder " + f.Name() + " is not an approved JSON string encoder: " + why, Pos: x.Pos()}}
+				return e.bad("key encoder " + x.Fun.Name() + " is not an approved JSON string encoder: " + why)
 			}
 		}
 	}
-	return []sTok{{Kind: "BAD", Why: "token source not understood: " + exprStr(e), Pos: e.Pos()}}
+	return e.bad("token source not understood: " + c.termStr(t))
 }
 
-func (c *Ctx) sprintfTokens(fd *ast.FuncDecl, args []ast.Expr, key, val types.Object, pos token.Pos) []sTok {
+func (e *emitter) sprintf(args []Term) []sTok {
 	if len(args) == 0 {
-		return []sTok{{Kind: "BAD", Why: "Sprintf without format", Pos: pos}}
+		return e.bad("Sprintf without format")
 	}
-	format, ok := c.constString(args[0])
+	format, ok := isConstStringTerm(args[0])
 	if !ok {
-		return []sTok{{Kind: "BAD", Why: "format string is not a constant: data (a key or value) is interpreted as formatting verbs", Pos: pos}}
+		return e.bad("format string is not a constant: data (a key or value) is interpreted as formatting verbs")
 	}
 	var out []sTok
 	rest := args[1:]
@@ -259,713 +316,271 @@ func (c *Ctx) sprintfTokens(fd *ast.FuncDecl, args []ast.Expr, key, val types.Ob
 			break
 		}
 		if i > 0 {
-			out = append(out, sTok{Kind: "CONST", Text: format[:i], Pos: pos})
+			out = append(out, sTok{Kind: "C", Text: format[:i]})
 		}
 		if i+1 >= len(format) || format[i+1] != 's' {
 			verb := "%"
 			if i+1 < len(format) {
 				verb += string(format[i+1])
 			}
-			return append(out, sTok{Kind: "BAD", Why: "format verb " + verb + " (only %s of already-encoded text is accepted; %v/%q/%d emit Go syntax)", Pos: pos})
+			return append(out, e.bad("format verb "+verb+" (only %s of already-encoded text is accepted; %v/%q/%d emit Go syntax)")...)
 		}
 		if len(rest) == 0 {
-			return append(out, sTok{Kind: "BAD", Why: "missing Sprintf argument", Pos: pos})
+			return append(out, e.bad("missing Sprintf argument")...)
 		}
-		out = append(out, c.tokensOf(fd, rest[0], key, val)...)
+		out = append(out, e.tokens(rest[0])...)
 		rest = rest[1:]
 		format = format[i+2:]
 	}
 	if format != "" {
-		out = append(out, sTok{Kind: "CONST", Text: format, Pos: pos})
+		out = append(out, sTok{Kind: "C", Text: format})
 	}
 	if len(rest) != 0 {
-		out = append(out, sTok{Kind: "BAD", Why: "extra Sprintf argument", Pos: pos})
+		out = append(out, e.bad("extra Sprintf argument")...)
 	}
 	return out
 }
 
-// builderWrite: stmt is b.WriteRune/WriteString/WriteByte(x) or fmt.Fprintf(&b, …) on builder b; returns tokens.
-func (c *Ctx) builderWrite(fd *ast.FuncDecl, s ast.Stmt, b types.Object, key, val types.Object) ([]sTok, bool) {
-	es, ok := s.(*ast.ExprStmt)
-	if !ok {
-		return nil, false
+func (e *emitter) hook(t Term) (int64, bool) {
+	switch x := t.(type) {
+	case TLoop:
+		if v, ok := e.ints[key(TVar{x.Obj})]; ok {
+			return v, true
+		}
+	case TVar:
+		if v, ok := e.ints[key(x)]; ok {
+			return v, true
+		}
 	}
-	call, ok := es.X.(*ast.CallExpr)
-	if !ok {
-		return nil, false
+	if e.v.isCountOfRecv(t) {
+		return e.n, true
 	}
-	full := c.calleeFull(call)
-	if full == "fmt.Fprintf" || full == "fmt.Fprint" {
-		if len(call.Args) >= 2 {
-			if u, ok := unparen(call.Args[0]).(*ast.UnaryExpr); ok && u.Op == token.AND && c.obj(u.X) == b {
-				if full == "fmt.Fprint" {
-					return []sTok{{Kind: "BAD", Why: "fmt.Fprint formats values with %v (Go syntax)", Pos: call.Pos()}}, true
-				}
-				return c.sprintfTokens(fd, call.Args[1:], key, val, call.Pos()), true
+	return 0, false
+}
+
+func (e *emitter) bhook(t Term) (bool, bool) {
+	if lv, ok := t.(TLoop); ok {
+		if v, ok := e.bools[key(TVar{lv.Obj})]; ok {
+			return v, true
+		}
+	}
+	return false, false
+}
+
+// steps interprets the effect steps of a path; returns false on an unsupported construct.
+func (e *emitter) steps(steps []Step) bool {
+	for _, st := range steps {
+		switch st.Kind {
+		case "cond":
+			// conditions of the selected path were folded by the caller
+		case "store":
+			// zero-initialisation of an addressed local buffer: nothing to emit
+			if _, isVar := st.LHS.(TVar); !isVar {
+				e.why = "store " + e.c.termStr(st.LHS)
+				return false
+			}
+		case "call":
+			if st.Call == nil || st.Call.Fun == nil {
+				e.why = "unknown call"
+				return false
+			}
+			full := st.Call.Fun.FullName()
+			switch {
+			case st.Call.Recv != nil && (full == "(*strings.Builder).WriteString" || full == "(*strings.Builder).WriteRune" || full == "(*strings.Builder).WriteByte" ||
+				full == "(*bytes.Buffer).WriteString" || full == "(*bytes.Buffer).WriteRune" || full == "(*bytes.Buffer).WriteByte"):
+				k := bufKey(st.Call.Recv)
+				e.bufs[k] = append(e.bufs[k], e.tokens(st.Call.Args[0])...)
+			case full == "fmt.Fprintf" && len(st.Call.Args) >= 2:
+				k := bufKey(st.Call.Args[0])
+				e.bufs[k] = append(e.bufs[k], e.sprintf(unpack(st.Call.Args[1:]))...)
+			case full == "fmt.Fprint" || full == "fmt.Fprintln":
+				e.why = full + " formats values with %v (Go syntax)"
+				return false
+			case full == "(*strings.Builder).Grow" || full == "(*bytes.Buffer).Grow":
+			default:
+				e.why = "call of " + e.c.termStr(*st.Call)
+				return false
+			}
+		case "loop":
+			if !e.loop(st.Loop) {
+				return false
+			}
+		default:
+			e.why = st.Kind
+			return false
+		}
+	}
+	return true
+}
+
+// loop unrolls the range over the receiver's spine for n elements.
+func (e *emitter) loop(l *LoopRec) bool {
+	if l.Range == nil || !e.v.isRecvSpine(l.Over) {
+		e.why = "a loop that does not range over the receiver's own spine"
+		return false
+	}
+	e.keyVar, e.valVar = l.Key, l.Value
+	// initial values of loop-carried variables
+	for o, t := range l.Init {
+		k := key(TVar{o})
+		switch {
+		case isIntType(o.Type()):
+			te := &termEnv{hook: e.hook}
+			v, ok := te.int(t)
+			if !ok {
+				e.why = "loop counter initialiser cannot be folded"
+				return false
+			}
+			e.ints[k] = v
+		case isStringType(o.Type()):
+			e.strs[k] = mergeToks(e.tokens(t))
+		case types.Identical(o.Type().Underlying(), types.Typ[types.Bool]):
+			te := &termEnv{hook: e.hook, bhook: e.bhook}
+			v, ok := te.bool(t)
+			if !ok {
+				e.why = "loop flag initialiser cannot be folded"
+				return false
+			}
+			e.bools[k] = v
+		default:
+			if sl, ok := o.Type().Underlying().(*types.Slice); ok && isStringType(sl.Elem()) {
+				e.lists[k] = nil
 			}
 		}
-		return nil, false
 	}
-	sel, ok := unparen(call.Fun).(*ast.SelectorExpr)
-	if !ok || c.obj(sel.X) != b || len(call.Args) != 1 {
-		return nil, false
-	}
-	switch sel.Sel.Name {
-	case "WriteRune", "WriteString", "WriteByte":
-		return c.tokensOf(fd, call.Args[0], key, val), true
-	}
-	return nil, false
-}
-
-func tokString(ts []sTok) string {
-	var p []string
-	for _, t := range ts {
-		if t.Kind == "CONST" {
-			p = append(p, "'"+t.Text+"'")
-		} else {
-			p = append(p, t.Kind)
+	for t := int64(0); t < e.n; t++ {
+		if l.Key != nil && isIntType(l.Key.Type()) {
+			e.ints[key(TVar{l.Key})] = t
+		}
+		var sel *Path
+		for _, ip := range l.Iter {
+			feasible := true
+			for _, cd := range ip.Conds() {
+				te := &termEnv{hook: e.hook, bhook: e.bhook}
+				// conditions are evaluated with the loop-carried values at the point where they occur: counters updated earlier on the
+				// same path are part of the condition term itself (SX substitutes locals)
+				v, ok := te.bool(cd.T)
+				if !ok {
+					e.why = "separator condition outside the vocabulary: " + te.fail
+					return false
+				}
+				if v != cd.Truth {
+					feasible = false
+					break
+				}
+			}
+			if feasible {
+				if sel != nil {
+					e.why = "two feasible iteration paths"
+					return false
+				}
+				sel = ip
+			}
+		}
+		if sel == nil {
+			e.why = "no feasible iteration path"
+			return false
+		}
+		if sel.End != "fall" && sel.End != "continue" {
+			e.why = sel.End + " inside the serialisation loop: an element is dropped or duplicated"
+			return false
+		}
+		if !e.steps(sel.Steps) {
+			return false
+		}
+		// loop-carried updates
+		nextBools := map[string]bool{}
+		for o, nt := range sel.Env {
+			k := key(TVar{o})
+			if lv, same := nt.(TLoop); same && lv.Obj == o {
+				continue
+			}
+			switch {
+			case isIntType(o.Type()):
+				if _, tracked := e.ints[k]; tracked && o != l.Key {
+					te := &termEnv{hook: e.hook}
+					v, ok := te.int(nt)
+					if !ok {
+						e.why = "counter update cannot be folded"
+						return false
+					}
+					e.ints[k+"#next"] = v
+				}
+			case isStringType(o.Type()):
+				if _, tracked := e.strs[k]; tracked {
+					e.strs[k+"#next"] = mergeToks(e.tokens(nt))
+				}
+			case types.Identical(o.Type().Underlying(), types.Typ[types.Bool]):
+				if _, tracked := e.bools[k]; tracked {
+					te := &termEnv{hook: e.hook, bhook: e.bhook}
+					v, ok := te.bool(nt)
+					if !ok {
+						e.why = "loop flag update cannot be folded"
+						return false
+					}
+					nextBools[k] = v
+				}
+			default:
+				if _, tracked := e.lists[k]; tracked {
+					ap, ok := nt.(TBuiltin)
+					if !ok || ap.Name != "append" || len(ap.Args) != 2 {
+						e.why = "item slice updated other than by append"
+						return false
+					}
+					e.lists[k] = append(e.lists[k], mergeToks(e.tokens(ap.Args[1])))
+				}
+			}
+		}
+		for k, v := range e.ints {
+			if strings.HasSuffix(k, "#next") {
+				e.ints[strings.TrimSuffix(k, "#next")] = v
+				delete(e.ints, k)
+			}
+		}
+		for k, v := range e.strs {
+			if strings.HasSuffix(k, "#next") {
+				e.strs[strings.TrimSuffix(k, "#next")] = v
+				delete(e.strs, k)
+			}
+		}
+		for k, v := range nextBools {
+			e.bools[k] = v
 		}
 	}
-	return strings.Join(p, " ")
+	return true
 }
 
-// mergeConsts joins adjacent constants.
-func mergeConsts(ts []sTok) []sTok {
-	var out []sTok
-	for _, t := range ts {
-		if t.Kind == "CONST" && len(out) > 0 && out[len(out)-1].Kind == "CONST" {
-			out[len(out)-1].Text += t.Text
-			continue
+// emitted folds the container serialiser for n elements and returns the emitted token sequence.
+func (c *Ctx) emitted(fd *ast.FuncDecl, paths []*Path, n int64) ([]sTok, string) {
+	v := c.view(fd)
+	// the path that is not an in-loop exit
+	var main *Path
+	for _, p := range paths {
+		if p.End != "return" || len(p.Vals) != 1 {
+			return nil, "a path does not return the text"
 		}
-		out = append(out, t)
+		if main != nil {
+			return nil, "more than one path (a data-dependent shortcut)"
+		}
+		main = p
 	}
-	return out
+	if main == nil {
+		return nil, "no path"
+	}
+	e := &emitter{c: c, v: v, fd: fd, n: n, bools: map[string]bool{}, ints: map[string]int64{}, bufs: map[string][]sTok{}, lists: map[string][][]sTok{}, strs: map[string][]sTok{}, serName: c.FuncObj(fd).Name()}
+	for _, cd := range main.Conds() {
+		_ = cd
+		return nil, "a decision outside the loop"
+	}
+	if !e.steps(main.Steps) {
+		return nil, e.why
+	}
+	out := mergeToks(e.tokens(main.Vals[0]))
+	return out, ""
 }
 
 // ---------------------------------------------------------------- container serialisers
 
-func c02Container(c *Ctx, ct *Cont) {
-	tn := ct.Named.Obj().Name()
-	name := "(*" + tn + ").serialize"
-	fd := c.NeedDecl(serRule("C02.R2"), name)
-	if fd == nil {
-		return
-	}
-	open, close := "{", "}"
-	if ct.IsList {
-		open, close = "[", "]"
-	}
-	shape := c.Ob(serRule("C02.R2"), name+"/shape", fd.Pos())
-	// builder
-	var b types.Object
-	for _, s := range fd.Body.List {
-		if ds, ok := s.(*ast.DeclStmt); ok {
-			if gd, ok := ds.Decl.(*ast.GenDecl); ok {
-				for _, sp := range gd.Specs {
-					if vs, ok := sp.(*ast.ValueSpec); ok && len(vs.Names) == 1 {
-						if t := c.typeOf(vs.Type); t != nil && t.String() == "strings.Builder" {
-							b = c.Info.Defs[vs.Names[0]]
-						}
-					}
-				}
-			}
-		}
-	}
-	sl := spineLoops(c, fd)
-	if b == nil || len(sl) != 1 || len(allLoops(fd)) != 1 || sl[0].Depth != 0 {
-		shape.Undecided("serialiser is not: strings.Builder + one range loop over the receiver's spine")
-		return
-	}
-	l := sl[0]
-	if why := loopHasEarlyExit(l.Stmt); why != "" {
-		shape.Fail("%s inside the serialisation loop: an element is dropped or duplicated", why)
-		return
-	}
-	var pre, post []sTok
-	var counter types.Object
-	counterInit := int64(0)
-	phase := 0
-	for _, s := range fd.Body.List {
-		switch {
-		case s == ast.Stmt(l.Stmt):
-			phase = 1
-			continue
-		}
-		if _, ok := s.(*ast.DeclStmt); ok {
-			continue
-		}
-		if as, ok := s.(*ast.AssignStmt); ok && phase == 0 && as.Tok == token.DEFINE && len(as.Lhs) == 1 && len(as.Rhs) == 1 {
-			if k, ok := c.constInt(as.Rhs[0]); ok && counter == nil {
-				counter, counterInit = c.obj(as.Lhs[0]), k
-				continue
-			}
-		}
-		if r, ok := s.(*ast.ReturnStmt); ok && phase == 1 {
-			good := len(r.Results) == 1
-			if good {
-				call, ok := unparen(r.Results[0]).(*ast.CallExpr)
-				good = ok && len(call.Args) == 0 && c.calleeFull(call) == "(*strings.Builder).String"
-				if good {
-					sel := unparen(call.Fun).(*ast.SelectorExpr)
-					good = c.obj(sel.X) == b
-				}
-			}
-			if !good {
-				shape.Fail("serialiser does not return the builder's content")
-				return
-			}
-			continue
-		}
-		ts, ok := c.builderWrite(fd, s, b, nil, nil)
-		if !ok {
-			shape.Undecided("statement outside the vocabulary (builder writes, one loop, return builder.String())")
-			return
-		}
-		if phase == 0 {
-			pre = append(pre, ts...)
-		} else {
-			post = append(post, ts...)
-		}
-	}
-	pre, post = mergeConsts(pre), mergeConsts(post)
-	okFrame := len(pre) == 1 && pre[0].Kind == "CONST" && pre[0].Text == open && len(post) == 1 && post[0].Kind == "CONST" && post[0].Text == close
-	c.Ob(serRule("C02.R2"), name+"/brackets", fd.Pos()).Check(okFrame, "opens with '"+open+"' and closes with '"+close+"' exactly once", "text outside the loop is "+tokString(pre)+" … "+tokString(post)+", expected '"+open+"' … '"+close+"'")
-	// loop body: writes and at most one guarded separator write
-	var elemToks []sTok
-	var sepIf *ast.IfStmt
-	sepBefore := false
-	counterIncBeforeCond := false
-	counterIncs := 0
-	for _, s := range l.Stmt.Body.List {
-		switch x := s.(type) {
-		case *ast.IfStmt:
-			if sepIf != nil || x.Else != nil {
-				shape.Undecided("more than one conditional in the loop body")
-				return
-			}
-			if x.Init != nil {
-				if inc, ok := x.Init.(*ast.IncDecStmt); ok && inc.Tok == token.INC && counter != nil && c.obj(inc.X) == counter {
-					counterIncs++
-					counterIncBeforeCond = true
-				} else {
-					shape.Undecided("if-init statement not understood")
-					return
-				}
-			}
-			if len(x.Body.List) != 1 {
-				shape.Undecided("separator branch has more than one statement")
-				return
-			}
-			ts, ok := c.builderWrite(fd, x.Body.List[0], b, l.Key, l.Value)
-			ts = mergeConsts(ts)
-			if !ok || len(ts) != 1 || ts[0].Kind != "CONST" || ts[0].Text != "," {
-				shape.Fail("the conditional write inside the loop is not the ',' separator")
-				return
-			}
-			sepIf = x
-			sepBefore = len(elemToks) == 0
-		case *ast.IncDecStmt:
-			if counter != nil && c.obj(x.X) == counter && x.Tok == token.INC {
-				counterIncs++
-				if sepIf == nil {
-					counterIncBeforeCond = true
-				}
-				continue
-			}
-			shape.Undecided("increment of an unknown variable in the loop")
-			return
-		default:
-			ts, ok := c.builderWrite(fd, s, b, l.Key, l.Value)
-			if !ok {
-				shape.Undecided("loop statement outside the vocabulary")
-				return
-			}
-			elemToks = append(elemToks, ts...)
-		}
-	}
-	elemToks = mergeConsts(elemToks)
-	shape.Ok("Builder: %s  ( %s  [sep] )*  %s", tokString(pre), tokString(elemToks), tokString(post))
-	// R1: emitter discipline on every token
-	r1 := c.Ob(serRule("C02.R1"), name+"/emitters", l.Stmt.Pos())
-	bad := ""
-	for _, t := range elemToks {
-		if t.Kind == "BAD" {
-			bad = t.Why
-		}
-	}
-	var wantSeq string
-	if ct.IsList {
-		wantSeq = "CHILD"
-	} else {
-		wantSeq = "KEY ':' CHILD"
-	}
-	switch {
-	case bad != "":
-		r1.Fail("%s", bad)
-	case tokString(elemToks) != wantSeq:
-		r1.Fail("per-element text is %s, expected %s (own punctuation, the JSON-encoded range key, the child's serialisation — each exactly once)", tokString(elemToks), wantSeq)
-	default:
-		r1.Ok("per element: %s — only own punctuation, the approved JSON string encoder on the range key, and the child serialiser", wantSeq)
-	}
-	// R3: separator guard
-	r3 := c.Ob(serRule("C02.R3"), name+"/separator", l.Stmt.Pos())
-	if sepIf == nil {
-		r3.Fail("no guarded ',' between elements")
-		return
-	}
-	if counter != nil && counterIncs > 1 {
-		r3.Fail("the counter is incremented more than once per iteration")
-		return
-	}
-	good, why := true, ""
-	for n := int64(1); n <= 4 && good; n++ {
-		for t := int64(0); t < n && good; t++ {
-			vars := map[types.Object]int64{}
-			if l.Key != nil && ct.IsList {
-				vars[l.Key] = t
-			}
-			if counter != nil && counterIncs == 1 {
-				vars[counter] = counterInit + t
-				if counterIncBeforeCond {
-					vars[counter] = counterInit + t + 1
-				}
-			}
-			ev := &evalEnv{c: c, vars: vars, hook: func(e ast.Expr) (int64, bool) {
-				if c.isCountOfRecv(fd, e) {
-					return n, true
-				}
-				return 0, false
-			}}
-			v, ok := ev.bool(sepIf.Cond)
-			want := t < n-1
-			if sepBefore {
-				want = t > 0
-			}
-			if !ok {
-				good, why = false, "separator condition outside the vocabulary: "+ev.fail
-			} else if v != want {
-				good, why = false, "with "+itoa(int(n))+" elements, iteration "+itoa(int(t))+": ',' written="+boolStr(v)+", expected "+boolStr(want)
-			}
-		}
-	}
-	if good {
-		r3.Ok("',' is written exactly between consecutive elements (folded for 1..4 elements): %s", exprStr(sepIf.Cond))
-	} else {
-		r3.Fail("separator guard %s is not `not the %s iteration`: %s", exprStr(sepIf.Cond), map[bool]string{true: "first", false: "last"}[sepBefore], why)
-	}
-}
-
-// ---------------------------------------------------------------- scalar serialisers
-
-// float text tags: Fn (plain decimal, no '.'), Fm (plain decimal with '.'), En/Em (exponent form without/with '.'), BAD
-type tagSet map[string]bool
-
-func (t tagSet) clone() tagSet {
-	o := tagSet{}
-	for k := range t {
-		o[k] = true
-	}
-	return o
-}
-
-type fstate struct {
-	strs  map[types.Object]tagSet
-	verbs map[types.Object]map[rune]bool
-}
-
-func (s *fstate) clone() *fstate {
-	n := &fstate{strs: map[types.Object]tagSet{}, verbs: map[types.Object]map[rune]bool{}}
-	for k, v := range s.strs {
-		n.strs[k] = v.clone()
-	}
-	for k, v := range s.verbs {
-		m := map[rune]bool{}
-		for r := range v {
-			m[r] = true
-		}
-		n.verbs[k] = m
-	}
-	return n
-}
-
-type floatInterp struct {
-	c       *Ctx
-	fd      *ast.FuncDecl
-	alias   map[types.Object]ast.Expr
-	returns []struct {
-		tags tagSet
-		pos  token.Pos
-	}
-	undecided string
-}
-
-func (fi *floatInterp) textOf(e ast.Expr, st *fstate) tagSet {
-	c := fi.c
-	e = unparen(e)
-	if id, ok := e.(*ast.Ident); ok {
-		if t, ok := st.strs[c.obj(id)]; ok {
-			return t.clone()
-		}
-	}
-	if be, ok := e.(*ast.BinaryExpr); ok && be.Op == token.ADD {
-		base := fi.textOf(be.X, st)
-		sfx, ok := c.constString(be.Y)
-		if base == nil || !ok {
-			return nil
-		}
-		return appendSuffix(base, sfx)
-	}
-	call, ok := e.(*ast.CallExpr)
-	if !ok {
-		return nil
-	}
-	switch c.calleeFull(call) {
-	case "strconv.FormatFloat":
-		if len(call.Args) != 4 || !c.isPayload(fi.fd, call.Args[0], fi.alias) {
-			return nil
-		}
-		if bits, ok := c.constInt(call.Args[3]); !ok || bits != 64 {
-			fi.undecided = "FormatFloat bit size is not the constant 64"
-			return nil
-		}
-		prec, ok := c.constInt(call.Args[2])
-		if !ok {
-			return nil
-		}
-		verbs := map[rune]bool{}
-		if v, ok := c.constInt(call.Args[1]); ok {
-			verbs[rune(v)] = true
-		} else if m, ok := st.verbs[c.obj(call.Args[1])]; ok {
-			verbs = m
-		} else {
-			return nil
-		}
-		out := tagSet{}
-		for v := range verbs {
-			switch v {
-			case 'e', 'E':
-				if prec == 0 {
-					out["En"] = true
-				} else if prec > 0 {
-					out["Em"] = true
-				} else {
-					out["En"], out["Em"] = true, true
-				}
-			case 'f', 'F':
-				if prec == 0 {
-					out["Fn"] = true
-				} else if prec > 0 {
-					out["Fm"] = true
-				} else {
-					out["Fn"], out["Fm"] = true, true
-				}
-			case 'g', 'G':
-				out["Fn"], out["Fm"], out["En"], out["Em"] = true, true, true, true
-			default:
-				out["BAD"] = true
-			}
-		}
-		return out
-	}
-	return nil
-}
-
-func appendSuffix(base tagSet, sfx string) tagSet {
-	out := tagSet{}
-	for t := range base {
-		switch {
-		case sfx == "":
-			out[t] = true
-		case sfx == ".0" && t == "Fn":
-			out["Fm"] = true
-		default:
-			out["BAD:"+t+"+"+sfx] = true
-		}
-	}
-	return out
-}
-
-// split refines the tag set of variable v by a condition; returns (true-branch state, false-branch state).
-func (fi *floatInterp) split(cond ast.Expr, st *fstate) (*fstate, *fstate) {
-	c := fi.c
-	t, f := st.clone(), st.clone()
-	at := atomOf(cond, false)
-	call, ok := at.Expr.(*ast.CallExpr)
-	if !ok || len(call.Args) != 2 {
-		return t, f
-	}
-	v := c.obj(call.Args[0])
-	set, tracked := st.strs[v]
-	needle, isConst := c.constString(call.Args[1])
-	if !tracked || !isConst {
-		return t, f
-	}
-	var has func(tag string) bool
-	switch c.calleeFull(call) {
-	case "strings.Contains":
-		switch needle {
-		case ".":
-			has = func(tag string) bool { return tag == "Fm" || tag == "Em" }
-		case "e":
-			has = func(tag string) bool { return tag == "En" || tag == "Em" } // lower-case 'e' only for verb 'e'; conservative enough for the table
-		default:
-			return t, f
-		}
-	case "strings.ContainsAny":
-		chars := map[rune]bool{}
-		for _, r := range needle {
-			chars[r] = true
-		}
-		switch {
-		case chars['.'] && (chars['e'] || chars['E']):
-			has = func(tag string) bool { return tag != "Fn" }
-		case chars['.']:
-			has = func(tag string) bool { return tag == "Fm" || tag == "Em" }
-		default:
-			return t, f
-		}
-	default:
-		return t, f
-	}
-	yes, no := tagSet{}, tagSet{}
-	for tag := range set {
-		if strings.HasPrefix(tag, "BAD") {
-			yes[tag], no[tag] = true, true
-		} else if has(tag) {
-			yes[tag] = true
-		} else {
-			no[tag] = true
-		}
-	}
-	if at.Neg {
-		yes, no = no, yes
-	}
-	t.strs[v], f.strs[v] = yes, no
-	return t, f
-}
-
-// exec runs the statement list on the abstract state; returns the fall-through states.
-func (fi *floatInterp) exec(stmts []ast.Stmt, in []*fstate) []*fstate {
-	c := fi.c
-	cur := in
-	for _, s := range stmts {
-		if len(cur) == 0 {
-			return nil
-		}
-		var next []*fstate
-		switch x := s.(type) {
-		case *ast.AssignStmt:
-			for _, st := range cur {
-				if len(x.Lhs) != 1 || len(x.Rhs) != 1 {
-					fi.undecided = "multi-assignment in the float serialiser"
-					return nil
-				}
-				o := c.obj(x.Lhs[0])
-				switch {
-				case x.Tok == token.ADD_ASSIGN:
-					sfx, ok := c.constString(x.Rhs[0])
-					if base, tracked := st.strs[o]; tracked && ok {
-						st.strs[o] = appendSuffix(base, sfx)
-					} else {
-						fi.undecided = "append to an untracked string"
-					}
-				default:
-					if t := fi.textOf(x.Rhs[0], st); t != nil {
-						st.strs[o] = t
-					} else if v, ok := c.constInt(x.Rhs[0]); ok && isByteLike(c.typeOf(x.Rhs[0])) {
-						st.verbs[o] = map[rune]bool{rune(v): true}
-					}
-					// other locals (val, abs, …) are not text: ignored
-				}
-				next = append(next, st)
-			}
-		case *ast.DeclStmt:
-			next = cur
-		case *ast.IfStmt:
-			if x.Init != nil {
-				fi.undecided = "if with init statement"
-				return nil
-			}
-			for _, st := range cur {
-				t, f := fi.split(x.Cond, st)
-				next = append(next, fi.exec(x.Body.List, []*fstate{t})...)
-				switch e := x.Else.(type) {
-				case nil:
-					next = append(next, f)
-				case *ast.BlockStmt:
-					next = append(next, fi.exec(e.List, []*fstate{f})...)
-				case *ast.IfStmt:
-					next = append(next, fi.exec([]ast.Stmt{e}, []*fstate{f})...)
-				}
-			}
-		case *ast.ReturnStmt:
-			for _, st := range cur {
-				if len(x.Results) != 1 {
-					fi.undecided = "return without a single value"
-					return nil
-				}
-				t := fi.textOf(x.Results[0], st)
-				if t == nil {
-					fi.undecided = "returned text not understood: " + exprStr(x.Results[0])
-					return nil
-				}
-				fi.returns = append(fi.returns, struct {
-					tags tagSet
-					pos  token.Pos
-				}{t, x.Pos()})
-			}
-			return nil
-		default:
-			fi.undecided = "statement outside the vocabulary of the float serialiser"
-			return nil
-		}
-		cur = next
-	}
-	return cur
-}
-
-func isByteLike(t types.Type) bool {
-	if t == nil {
-		return false
-	}
-	b, ok := t.Underlying().(*types.Basic)
-	return ok && b.Info()&types.IsInteger != 0
-}
-
-func c01FloatMarking(c *Ctx) {
-	for _, w := range c.Inv().Wrappers {
-		if c.wrapperKind(w) != "float" {
-			continue
-		}
-		name := "(*" + w.Obj().Name() + ").serialize"
-		fd := c.NeedDecl(serRule("C01.R3"), name)
-		if fd == nil {
-			return
-		}
-		fi := &floatInterp{c: c, fd: fd, alias: singleAssignAliases(c, fd.Body)}
-		st := &fstate{strs: map[types.Object]tagSet{}, verbs: map[types.Object]map[rune]bool{}}
-		rest := fi.exec(fd.Body.List, []*fstate{st})
-		if fi.undecided != "" {
-			c.Ob(serRule("C01.R3"), name, fd.Pos()).Undecided("%s", fi.undecided)
-			return
-		}
-		if len(rest) > 0 {
-			c.Ob(serRule("C01.R3"), name, fd.Pos()).Undecided("a path falls off the end of the function")
-			return
-		}
-		for i, r := range fi.returns {
-			var tags []string
-			for t := range r.tags {
-				tags = append(tags, t)
-			}
-			sort.Strings(tags)
-			ob := c.Ob(serRule("C01.R3"), name+"#ret"+itoa(i+1), r.pos)
-			ob2 := c.Ob(serRule("C02.R1"), name+"#ret"+itoa(i+1), r.pos)
-			bad, unmarked := "", false
-			for _, t := range tags {
-				if strings.HasPrefix(t, "BAD") {
-					bad = t
-				}
-				if t == "Fn" {
-					unmarked = true
-				}
-			}
-			switch {
-			case bad != "":
-				ob.Fail("returned text may be malformed (%s): a suffix is appended to a text that is not a plain integer-like decimal, e.g. \"1e+06.0\"", bad)
-				ob2.Fail("float text may not be a JSON number (%s)", bad)
-			case unmarked:
-				ob.Fail("a whole-valued float may be printed without '.', 'e' or 'E' (text classes %v): it reads back as an int", tags)
-				ob2.Ok("float text classes %v are JSON numbers", tags)
-			default:
-				ob.Ok("text classes %v: always contains '.' or an exponent, so the parser's int stage cannot claim it", tags)
-				ob2.Ok("float text classes %v are JSON numbers (FormatFloat with bit size 64 on a finite value)", tags)
-			}
-		}
-		c.R.Floor(serRule("C01.R3"), len(fi.returns), 2)
-	}
-}
-
-// scalarSerializers: nil, bool, int, string wrappers.
-func c02Scalars(c *Ctx) {
-	n := 0
-	for _, w := range c.Inv().Wrappers {
-		kind := c.wrapperKind(w)
-		if kind == "float" {
-			n++
-			continue
-		}
-		name := "(*" + w.Obj().Name() + ").serialize"
-		fd := c.NeedDecl(serRule("C02.R1"), name)
-		if fd == nil {
-			continue
-		}
-		n++
-		alias := singleAssignAliases(c, fd.Body)
-		rets := returnsOf(fd.Body)
-		ob := c.Ob(serRule("C02.R1"), name, fd.Pos())
-		if len(rets) != 1 || len(rets[0].Results) != 1 {
-			ob.Undecided("serialiser does not have a single return")
-			continue
-		}
-		// only alias definitions may precede the return
-		for _, s := range fd.Body.List[:len(fd.Body.List)-1] {
-			if _, ok := s.(*ast.AssignStmt); !ok {
-				ob.Undecided("unexpected statement before the return")
-			}
-		}
-		res := unparen(rets[0].Results[0])
-		switch kind {
-		case "nil":
-			s, ok := c.constString(res)
-			ob.Check(ok && s == "null", "emits the literal null", "nil wrapper does not emit `null`")
-		case "bool":
-			call, ok := res.(*ast.CallExpr)
-			ob.Check(ok && c.calleeFull(call) == "strconv.FormatBool" && len(call.Args) == 1 && c.isPayload(fd, call.Args[0], alias), "strconv.FormatBool(payload): true|false", "bool wrapper does not emit strconv.FormatBool(payload)")
-		case "int":
-			call, ok := res.(*ast.CallExpr)
-			good := false
-			if ok {
-				switch c.calleeFull(call) {
-				case "strconv.Itoa":
-					good = len(call.Args) == 1 && c.isPayload(fd, call.Args[0], alias)
-				case "strconv.FormatInt":
-					if len(call.Args) == 2 {
-						base, okb := c.constInt(call.Args[1])
-						if conv, okc := unparen(call.Args[0]).(*ast.CallExpr); okc && len(conv.Args) == 1 && okb && base == 10 {
-							good = c.isPayload(fd, conv.Args[0], alias)
-						}
-					}
-				}
-			}
-			ob.Check(good, "decimal integer text of the payload (Itoa/FormatInt base 10): a JSON int without '.', 'e'", "int wrapper does not emit the decimal text of its payload")
-			c.Ob(serRule("C01.R3"), name, fd.Pos()).Check(good, "int text is Itoa/FormatInt(…,10) of the payload", "int text is not the plain decimal of the payload")
-		case "string":
-			call, ok := res.(*ast.CallExpr)
-			if !ok || len(call.Args) != 1 || !c.isPayload(fd, call.Args[0], alias) || c.callee(call) == nil {
-				ob.Fail("string wrapper does not emit an encoder applied to its payload")
-				continue
-			}
-			cls, why := c.stringHelperClass(c.callee(call))
-			switch cls {
-			case "json":
-				ob.Ok("string payload goes through %s, classified JSON-string-safe (encoding/json)", c.callee(call).Name())
-				valueEncoders[c] = c.callee(call)
-			case "go-syntax":
-				ob.Fail("%s emits Go literal syntax (\\x01, \\a, \\v, \\U0001f600), which an RFC 8259 decoder rejects", c.callee(call).FullName())
-			default:
-				ob.Undecided("string encoder %s is not an approved JSON string encoder: %s", c.callee(call).Name(), why)
-			}
-		default:
-			ob.Undecided("wrapper of unknown kind")
-		}
-	}
-	c.R.Floor(serRule("C02.R1"), n, 5)
-}
-
-var valueEncoders = map[*Ctx]*types.Func{}
-
-// serRule maps the canonical C02 rule ids to the ids of the property currently being decided.
 var serRule = func(id string) string { return id }
 
 func asC01(id string) string {
@@ -986,6 +601,361 @@ func asC16(id string) string {
 	return id
 }
 
+func c02Container(c *Ctx, ct *Cont) {
+	tn := ct.Named.Obj().Name()
+	name := "(*" + tn + ").serialize"
+	fd := c.NeedDecl(serRule("C02.R2"), name)
+	if fd == nil {
+		return
+	}
+	open, close := "{", "}"
+	if ct.IsList {
+		open, close = "[", "]"
+	}
+	shape := c.Ob(serRule("C02.R2"), name+"/shape", fd.Pos())
+	emit := c.Ob(serRule("C02.R1"), name+"/emitters", fd.Pos())
+	sep := c.Ob(serRule("C02.R3"), name+"/separator", fd.Pos())
+	x := c.serSX()
+	paths := x.Run(fd)
+	for _, p := range paths {
+		if p.Why != "" {
+			shape.Undecided("body outside the path vocabulary: %s", p.Why)
+			return
+		}
+	}
+	bad, undec := "", ""
+	badEmit := ""
+	sample := ""
+	for n := int64(0); n <= 3 && bad == "" && undec == ""; n++ {
+		got, why := c.emitted(fd, paths, n)
+		if why != "" {
+			undec = why
+			break
+		}
+		var want []sTok
+		want = append(want, sTok{Kind: "C", Text: open})
+		for t := int64(0); t < n; t++ {
+			if t > 0 {
+				want = append(want, sTok{Kind: "C", Text: ","})
+			}
+			if !ct.IsList {
+				want = append(want, sTok{Kind: "KEY"}, sTok{Kind: "C", Text: ":"})
+			}
+			want = append(want, sTok{Kind: "CHILD"})
+		}
+		want = mergeToks(append(want, sTok{Kind: "C", Text: close}))
+		for _, t := range got {
+			if t.Kind == "BAD" && badEmit == "" {
+				badEmit = t.Text
+			}
+		}
+		if tokStr(got) != tokStr(want) && badEmit == "" {
+			bad = "with " + itoa(int(n)) + " element(s) the emitted text is  " + tokStr(got) + "  — expected  " + tokStr(want)
+		}
+		if n == 2 {
+			sample = tokStr(got)
+		}
+	}
+	switch {
+	case undec != "":
+		shape.Undecided("serialiser outside the emission vocabulary (builder writes, Sprintf with a constant format, +, strings.Join, one range loop): %s", undec)
+	case badEmit != "":
+		emit.Fail("%s", badEmit)
+	case bad != "":
+		if strings.Contains(bad, "','") || strings.Contains(bad, ",'") {
+			sep.Fail("%s", bad)
+		} else {
+			shape.Fail("%s", bad)
+		}
+	default:
+		shape.Ok("emitted text folded for 0..3 elements, e.g. 2 elements: %s", sample)
+		emit.Ok("every byte comes from the container's own punctuation, the approved JSON string encoder applied to the range key, or the child's serialiser of the range value — each element exactly once, in range order")
+		sep.Ok("',' is written exactly between consecutive elements (0..3 elements folded)")
+	}
+}
+
+// ---------------------------------------------------------------- scalar serialisers
+
+type tagSet map[string]bool
+
+// floatTags classifies the text of a FormatFloat call term: Fn (plain decimal, no '.'), Fm (plain with '.'), En/Em (exponent form).
+func (v *sxView) floatTags(t Term) (tagSet, string) {
+	call, ok := t.(TCall)
+	if !ok || call.Fun == nil || call.Fun.FullName() != "strconv.FormatFloat" || len(call.Args) != 4 {
+		return nil, "text is not a strconv.FormatFloat result"
+	}
+	if !v.isPayloadTerm(call.Args[0]) {
+		return nil, "FormatFloat is not applied to the receiver's payload"
+	}
+	if bits, ok := constInt(simplify(call.Args[3])); !ok || bits != 64 {
+		return nil, "FormatFloat bit size is not the constant 64"
+	}
+	prec, ok := constInt(simplify(call.Args[2]))
+	if !ok {
+		return nil, "FormatFloat precision is not a constant"
+	}
+	verb, ok := constInt(simplify(call.Args[1]))
+	if !ok {
+		return nil, "FormatFloat verb is not a constant on this path"
+	}
+	out := tagSet{}
+	switch rune(verb) {
+	case 'e', 'E':
+		if prec == 0 {
+			out["En"] = true
+		} else if prec > 0 {
+			out["Em"] = true
+		} else {
+			out["En"], out["Em"] = true, true
+		}
+	case 'f', 'F':
+		if prec == 0 {
+			out["Fn"] = true
+		} else if prec > 0 {
+			out["Fm"] = true
+		} else {
+			out["Fn"], out["Fm"] = true, true
+		}
+	case 'g', 'G':
+		out["Fn"], out["Fm"], out["En"], out["Em"] = true, true, true, true
+	default:
+		return nil, "unknown FormatFloat verb"
+	}
+	return out, ""
+}
+
+// refineTags applies a path condition about the text term to its tag set.
+func refineTags(text Term, tags tagSet, cd Cond) tagSet {
+	var has func(tag string) bool
+	truth := cd.Truth
+	t := cd.T
+	if u, ok := t.(TUn); ok && u.Op == token.NOT {
+		t, truth = u.X, !truth
+	}
+	switch x := t.(type) {
+	case TCall:
+		if x.Fun == nil || len(x.Args) != 2 || !sameTerm(x.Args[0], text) {
+			return tags
+		}
+		switch x.Fun.FullName() {
+		case "strings.Contains":
+			if s, ok := isConstStringTerm(x.Args[1]); ok && s == "." {
+				has = func(tag string) bool { return tag == "Fm" || tag == "Em" }
+			}
+		case "strings.ContainsRune":
+			if r, ok := constInt(x.Args[1]); ok && r == '.' {
+				has = func(tag string) bool { return tag == "Fm" || tag == "Em" }
+			}
+		case "strings.ContainsAny":
+			if s, ok := isConstStringTerm(x.Args[1]); ok && strings.Contains(s, ".") {
+				if strings.ContainsAny(s, "eE") {
+					has = func(tag string) bool { return tag != "Fn" }
+				} else {
+					has = func(tag string) bool { return tag == "Fm" || tag == "Em" }
+				}
+			}
+		}
+	case TBin:
+		// strings.IndexByte(text, '.') < 0  /  >= 0 / == -1 / != -1 (either orientation after simplification)
+		idx, k := x.X, x.Y
+		op := x.Op
+		if _, ok := constInt(idx); ok {
+			idx, k = k, idx
+			op = map[token.Token]token.Token{token.LSS: token.GTR, token.GTR: token.LSS, token.LEQ: token.GEQ, token.GEQ: token.LEQ, token.EQL: token.EQL, token.NEQ: token.NEQ}[op]
+		}
+		call, ok := idx.(TCall)
+		kv, okk := constInt(k)
+		if !ok || !okk || call.Fun == nil || len(call.Args) != 2 || !sameTerm(call.Args[0], text) {
+			return tags
+		}
+		dot := false
+		switch call.Fun.FullName() {
+		case "strings.IndexByte", "strings.IndexRune":
+			r, ok := constInt(call.Args[1])
+			dot = ok && r == '.'
+		case "strings.Index":
+			s, ok := isConstStringTerm(call.Args[1])
+			dot = ok && s == "."
+		}
+		if !dot {
+			return tags
+		}
+		// found <=> index >= 0
+		var foundWhenTrue, decided bool
+		switch {
+		case op == token.LSS && kv == 0, op == token.EQL && kv == -1, op == token.LEQ && kv == -1:
+			foundWhenTrue, decided = false, true
+		case op == token.GEQ && kv == 0, op == token.NEQ && kv == -1, op == token.GTR && kv == -1:
+			foundWhenTrue, decided = true, true
+		}
+		if decided {
+			has = func(tag string) bool { return tag == "Fm" || tag == "Em" }
+			if !foundWhenTrue {
+				truth = !truth
+			}
+		}
+	}
+	if has == nil {
+		return tags
+	}
+	out := tagSet{}
+	for tag := range tags {
+		if has(tag) == truth {
+			out[tag] = true
+		}
+	}
+	return out
+}
+
+func c01FloatMarking(c *Ctx) {
+	for _, w := range c.Inv().Wrappers {
+		if c.wrapperKind(w) != "float" {
+			continue
+		}
+		name := "(*" + w.Obj().Name() + ").serialize"
+		fd := c.NeedDecl(serRule("C01.R3"), name)
+		if fd == nil {
+			return
+		}
+		paths := c.serSX().Run(fd)
+		v := c.view(fd)
+		n := 0
+		for i, p := range paths {
+			n++
+			ob := c.Ob(serRule("C01.R3"), name+"#ret"+itoa(i+1), posOfNode(p.Node))
+			ob2 := c.Ob(serRule("C02.R1"), name+"#ret"+itoa(i+1), posOfNode(p.Node))
+			if p.Why != "" || p.End != "return" || len(p.Vals) != 1 || len(p.Effects()) != 0 {
+				ob.Undecided("float serialiser path outside the vocabulary: %s %s", p.End, p.Why)
+				continue
+			}
+			text, suffix := p.Vals[0], ""
+			if b, ok := text.(TBin); ok && b.Op == token.ADD {
+				if s, ok := isConstStringTerm(b.Y); ok {
+					text, suffix = b.X, s
+				}
+			}
+			tags, why := v.floatTags(text)
+			if why != "" {
+				ob.Undecided("%s", why)
+				continue
+			}
+			for _, cd := range p.Conds() {
+				tags = refineTags(text, tags, cd)
+			}
+			final := tagSet{}
+			for tag := range tags {
+				switch {
+				case suffix == "":
+					final[tag] = true
+				case suffix == ".0" && tag == "Fn":
+					final["Fm"] = true
+				default:
+					final["BAD:"+tag+"+"+suffix] = true
+				}
+			}
+			var ts []string
+			for t := range final {
+				ts = append(ts, t)
+			}
+			sort.Strings(ts)
+			bad, unmarked := "", false
+			for _, t := range ts {
+				if strings.HasPrefix(t, "BAD") {
+					bad = t
+				}
+				if t == "Fn" {
+					unmarked = true
+				}
+			}
+			switch {
+			case len(ts) == 0:
+				ob.OkTrivial("path is infeasible for the text classes of its FormatFloat call")
+				ob2.OkTrivial("infeasible path")
+			case bad != "":
+				ob.Fail("returned text may be malformed (%s): a suffix is appended to a text that is not a plain integer-like decimal, e.g. \"1e+06.0\"", bad)
+				ob2.Fail("float text may not be a JSON number (%s)", bad)
+			case unmarked:
+				ob.Fail("a whole-valued float may be printed without '.', 'e' or 'E' (text classes %v): it reads back as an int", ts)
+				ob2.Ok("float text classes %v are JSON numbers", ts)
+			default:
+				ob.Ok("text classes %v: always contains '.' or an exponent, so the parser's int stage cannot claim it", ts)
+				ob2.Ok("float text classes %v are JSON numbers (FormatFloat with bit size 64 on a finite value)", ts)
+			}
+		}
+		c.R.Floor(serRule("C01.R3"), n, 2)
+	}
+}
+
+var valueEncoders = map[*Ctx]*types.Func{}
+
+func c02Scalars(c *Ctx) {
+	n := 0
+	for _, w := range c.Inv().Wrappers {
+		kind := c.wrapperKind(w)
+		if kind == "float" {
+			n++
+			continue
+		}
+		name := "(*" + w.Obj().Name() + ").serialize"
+		fd := c.NeedDecl(serRule("C02.R1"), name)
+		if fd == nil {
+			continue
+		}
+		n++
+		ob := c.Ob(serRule("C02.R1"), name, fd.Pos())
+		paths := c.serSX().Run(fd)
+		v := c.view(fd)
+		if len(paths) != 1 || paths[0].Why != "" || paths[0].End != "return" || len(paths[0].Vals) != 1 || len(paths[0].Effects()) != 0 {
+			ob.Undecided("serialiser is not a single effect-free return")
+			continue
+		}
+		res := paths[0].Vals[0]
+		call, isCall := res.(TCall)
+		switch kind {
+		case "nil":
+			s, ok := isConstStringTerm(res)
+			ob.Check(ok && s == "null", "emits the literal null", "nil wrapper does not emit `null`")
+		case "bool":
+			ob.Check(isCall && call.Fun != nil && call.Fun.FullName() == "strconv.FormatBool" && len(call.Args) == 1 && v.isPayloadTerm(call.Args[0]), "strconv.FormatBool(payload): true|false", "bool wrapper does not emit strconv.FormatBool(payload)")
+		case "int":
+			good := false
+			if isCall && call.Fun != nil {
+				switch call.Fun.FullName() {
+				case "strconv.Itoa":
+					good = len(call.Args) == 1 && v.isPayloadTerm(call.Args[0])
+				case "strconv.FormatInt":
+					if len(call.Args) == 2 {
+						base, okb := constInt(simplify(call.Args[1]))
+						if cv, ok := call.Args[0].(TConv); ok && okb && base == 10 {
+							good = v.isPayloadTerm(cv.X)
+						}
+					}
+				}
+			}
+			ob.Check(good, "decimal integer text of the payload (Itoa/FormatInt base 10): a JSON int without '.', 'e'", "int wrapper does not emit the decimal text of its payload")
+			c.Ob(serRule("C01.R3"), name, fd.Pos()).Check(good, "int text is Itoa/FormatInt(…,10) of the payload", "int text is not the plain decimal of the payload")
+		case "string":
+			if !isCall || call.Fun == nil || len(call.Args) != 1 || !v.isPayloadTerm(call.Args[0]) {
+				ob.Fail("string wrapper does not emit an encoder applied to its payload")
+				continue
+			}
+			cls, why := c.stringHelperClass(call.Fun)
+			switch cls {
+			case "json":
+				ob.Ok("string payload goes through %s, classified JSON-string-safe (encoding/json)", call.Fun.Name())
+				valueEncoders[c] = call.Fun
+			case "go-syntax":
+				ob.Fail("%s emits Go literal syntax (\\x01, \\a, \\v, \\U0001f600), which an RFC 8259 decoder rejects", call.Fun.FullName())
+			default:
+				ob.Undecided("string encoder %s is not an approved JSON string encoder: %s", call.Fun.Name(), why)
+			}
+		default:
+			ob.Undecided("wrapper of unknown kind")
+		}
+	}
+	c.R.Floor(serRule("C02.R1"), n, 5)
+}
+
 func c02String(c *Ctx) {
 	n := 0
 	for _, ct := range c.Inv().Conts {
@@ -995,15 +965,12 @@ func c02String(c *Ctx) {
 			continue
 		}
 		n++
-		r := singleReturn(fd.Body)
-		good := r != nil && len(r.Results) == 1
+		paths, why := c.runPaths(fd)
+		v := c.view(fd)
+		good := why == "" && len(paths) == 1 && paths[0].End == "return" && len(paths[0].Vals) == 1 && len(paths[0].Effects()) == 0
 		if good {
-			call, ok := unparen(r.Results[0]).(*ast.CallExpr)
-			good = ok && len(call.Args) == 0
-			if good {
-				sel, ok := unparen(call.Fun).(*ast.SelectorExpr)
-				good = ok && c.isSelf(fd, sel.X) && c.callee(call) != nil && c.callee(call).Name() == "serialize"
-			}
+			nm, args, ok := v.selfCall(paths[0].Vals[0])
+			good = ok && nm == "serialize" && len(args) == 0
 		}
 		c.Ob(serRule("C02.R4"), name, fd.Pos()).Check(good, "String() returns self.serialize() unmodified", "String() is not `return self.serialize()`")
 	}
@@ -1016,12 +983,12 @@ func c02Rules() []Rule {
 			c02Scalars(c)
 			c01FloatMarking(c)
 		}},
-		{ID: "C02.R2", Doc: "shape: '[' (CHILD (',' CHILD)*)? ']' and '{' (KEY ':' CHILD (',' KEY ':' CHILD)*)? '}' over one range of the receiver's own spine", Run: func(c *Ctx) {
+		{ID: "C02.R2", Doc: "shape: '[' (CHILD (',' CHILD)*)? ']' and '{' (KEY ':' CHILD (',' KEY ':' CHILD)*)? '}' over one range of the receiver's own spine (emitted text folded for 0..3 elements)", Run: func(c *Ctx) {
 			for _, ct := range c.Inv().Conts {
 				c02Container(c, ct)
 			}
 		}},
-		{ID: "C02.R3", Doc: "separator guard equals `not the last (first) iteration` (folded for 1..4 elements)", Run: func(c *Ctx) {}},
+		{ID: "C02.R3", Doc: "',' exactly between consecutive elements (part of the folded emission)", Run: func(c *Ctx) {}},
 		{ID: "C02.R4", Doc: "String() returns serialize() of the receiver unmodified", Run: c02String},
 	}
 }
@@ -1029,9 +996,9 @@ func c02Rules() []Rule {
 func init() {
 	register(&Property{
 		ID: "C02",
-		Explanation: "Token-source dataflow of the 7 serialize implementations: the returned string is decomposed (strings.Builder writes, fmt.Sprintf with a constant format made of %s verbs and punctuation, +) into constants, CHILD (serialize of the range value) and encoder applications; " +
-			"encoders are classified by the trusted language table (strconv.Quote* = Go syntax, not JSON; encoding/json = JSON; repo-local helpers are analysed down to an accepted shape); float text is tracked in a small abstract domain (plain/with '.', exponent/with '.'); " +
-			"the ',' guard is folded for 1..4 elements. The encoders' own conformance, NaN/Inf and invalid UTF-8 in stored strings are outside.",
+		Explanation: "Token-source dataflow of the 7 serialize implementations on the symbolic path normal form (SX): the text a container serialiser emits is folded for 0..3 elements — strings.Builder/bytes.Buffer writes, fmt.Sprintf/Fprintf with a constant format made of %s verbs and punctuation, +, strings.Join over an accumulated item slice, counters — " +
+			"into a token sequence over {constant, CHILD = serialize of the range value, KEY = encoder applied to the range key}, which must equal '[' (CHILD (',' CHILD)*)? ']' resp. '{' (KEY ':' CHILD (',' …)*)? '}'; encoders are classified by the trusted language table (strconv.Quote* = Go syntax, not JSON; encoding/json = JSON; " +
+			"repo-local helpers are analysed down to an accepted straight-line shape); float text is tracked in a small abstract domain (plain/with '.', exponent/with '.'). The encoders' own conformance, NaN/Inf and invalid UTF-8 in stored strings are outside.",
 		Rules: c02Rules(),
 	})
 }
